@@ -257,6 +257,28 @@ def check(spec, env):
                             "msg": "submission %d: %s still pending %.0f virtual s after all underlying work finished "
                                    "(layers %s over %s; external cancellation injected: %s)"
                                    % (s, type(sr.futs[s]).__name__, spec["settle"], types, spec["base"]["kind"], ext)})
+    # (1b) a hand-over thread woken only by its fallback timer (2 s / 30 s) must find nothing it
+    #      could already have done: if the first thing it does after such a wake-up is to hand a
+    #      queued job to its delegate, progress hinged on the timer (static counts, stall-free)
+    thr = [i for i, L in enumerate(spec["layers"]) if L["t"] == "throttle"]
+    if len(thr) == 1 and not spec["sim"].get("stall_p") and isinstance(spec["layers"][thr[0]].get("count"), int):
+        lvl = thr[0]
+        log = sim.log
+        tids = [t.tid for t in sim.threads if t.name.startswith("ThrottleExecutor")]
+        if len(tids) == 1:
+            tid = tids[0]
+            for k, e in enumerate(log):
+                if e[3] != "clock-jump":
+                    continue
+                if not any(w[0].startswith("ThrottleExecutor") and w[1] == "SimEvent" for w in e[5]):
+                    continue
+                nxt = [x for x in log[k + 1:k + 400] if x[2] == tid]
+                if nxt and nxt[0][3] == "dsubmit" and nxt[0][4] == lvl:
+                    out.append({"oracle": "fallback-timer", "sig": "progress-hinged-on-fallback-timer|throttle",
+                                "msg": "at t=%.3fs the throttle hand-over thread was woken only by its fallback timer (clock jump of %.3fs) and then "
+                                       "handed submission %r to its delegate: the job had been ready all along; layers %s"
+                                       % (e[1] / 1e9, e[4] / 1e9, nxt[0][5], types)})
+                    break
     # (2) family A: completion no later than the configured delays imply
     if spec["mode"] == "A" and not spec["sim"].get("stall_p"):
         slack = SLACK + sim.clock_reads * sim.tick_ns / 1e9
